@@ -1,6 +1,5 @@
 from __future__ import annotations
 
-from collections import defaultdict
 from copy import deepcopy
 from types import MappingProxyType
 from typing import TYPE_CHECKING
@@ -59,7 +58,7 @@ class MolGraph:
             self._bond_attrs = deepcopy(mol_graph._bond_attrs)
         else:
             self._atom_attrs = {}
-            self._neighbors = defaultdict(set)
+            self._neighbors = {}
             self._bond_attrs = {}
 
     @property
@@ -176,6 +175,7 @@ class MolGraph:
         atom_type = PERIODIC_TABLE[atom_type]
 
         self._atom_attrs[atom] = {"atom_type": atom_type, **attr}
+        self._neighbors.setdefault(atom, set())
 
     def remove_atom(self, atom: AtomId):
         """Removes atom from graph.
@@ -183,10 +183,10 @@ class MolGraph:
         :param atom: Atom ID
         :raises: KeyError if atom is not in graph.
         """
+        for n in tuple(self._neighbors[atom]):
+            self.remove_bond(atom, n)
         del self._atom_attrs[atom]
-        if nbr := self._neighbors.pop(atom, None):
-            for n in nbr:
-                self.remove_bond(atom, n)
+        del self._neighbors[atom]
 
     def get_atom_attribute(self, atom: AtomId, attr: str) -> Optional[Any]:
         """
@@ -596,7 +596,7 @@ class MolGraph:
             new_graph._bond_attrs.update(mol_graph._bond_attrs)
 
             for atom, neighbors in mol_graph._neighbors.items():
-                new_graph._neighbors[atom].update(neighbors)
+                new_graph._neighbors.setdefault(atom, set()).update(neighbors)
 
         return new_graph
 
